@@ -57,7 +57,7 @@ def reference_layer_map(bottoms, thick):
             lay[i] = cur
         cur = lay[i]
     return lay
-IWCS = ["PropLayer", "PctLayer", "NumLayer", "PropDepth", "PctDepth", "NumDepth"]
+IWCS = ["PropLayer", "PctLayer", "NumLayer", "PropDepth", "PctDepth", "NumDepth", "PropLayerRev", "PctLayerMixed", "PropDepthRev", "PctDepthMixed", "NumLayerMixed"]
 
 
 def texture_soils():
@@ -84,6 +84,17 @@ def iwc_spec(kind, nlayers):
         return {"wc_type": "Pct", "method": "Depth", "depth_layer": [0.2, 0.6, 1.0], "value": [30.0, 70.0, 100.0]}
     if kind == "NumDepth":
         return {"wc_type": "Num", "method": "Depth", "depth_layer": [0.0, 0.35, 2.2], "value": [0.18, 0.31, 0.24]}
+    # other orders and mixed literal types of the value list (a container that takes its element type from one entry shows here)
+    if kind == "PropLayerRev":
+        return {"wc_type": "Prop", "method": "Layer", "depth_layer": layers, "value": (["SAT", "FC", "WP"] * 3)[:nlayers] if nlayers > 1 else ["SAT"]}
+    if kind == "PctLayerMixed":
+        return {"wc_type": "Pct", "method": "Layer", "depth_layer": layers, "value": [37.5, 60, 45][:nlayers]}
+    if kind == "NumLayerMixed":
+        return {"wc_type": "Num", "method": "Layer", "depth_layer": layers, "value": [0.255, 0.3, 0.21][:nlayers]}
+    if kind == "PropDepthRev":
+        return {"wc_type": "Prop", "method": "Depth", "depth_layer": [0.2, 1.0], "value": ["SAT", "WP"]}
+    if kind == "PctDepthMixed":
+        return {"wc_type": "Pct", "method": "Depth", "depth_layer": [0.1, 0.5, 1.4], "value": [12.5, 80, 50]}
     raise ValueError(kind)
 
 
